@@ -128,6 +128,51 @@ def sched_check(obs_vs):
     return [(k + ":under-some-schedule", d) for k, d in vs]
 
 
+def stuck_output_case(args):
+    """The peer stops reading (the node's socket is not writable any more) while an answer of the node is still unsent, then falls
+    silent: the idle and DWA timers run all the same - the connection is marked as awaiting a DWA and closed with the watchdog reason.
+    Fixed histories over (idle, dwa, wakeup) x when the peer stops reading."""
+    from .. import scenario
+    idle, dwa, wake, block_at = args
+    cfg = base(idle, dwa, wake)
+    sc = scenario.Scenario(cfg, max_socks=1)
+    vs = []
+    try:
+        nw = sc.start()
+        sc.apply(("accept",))
+        sc.apply(("m", 0, "cer_p0"))
+        s = sc.socks[0]
+        if block_at == "before-dwr":
+            s.fs.send_blocked = True
+        sc.apply(("m", 0, "dwr"))           # the node's DWA is stuck in its write buffer when the socket is blocked
+        if block_at == "after-dwr":
+            s.fs.send_blocked = True
+        t0 = nw.world.now
+        states = []
+        closed_at = None
+        for sec in range(idle + dwa + 2 * wake + 4):
+            sc.apply(("tick", 1))
+            conn = nw.conn_of(s.fs)
+            states.append(conn.state if conn is not None else None)
+            if s.fs.closed and closed_at is None:
+                closed_at = nw.world.now - t0
+        case = {"stuck": [idle, dwa, wake, block_at]}
+        desc = f"(idle {idle}, dwa {dwa}, wakeup {wake}, peer stops reading {block_at}): connection states per second {[hex(x) if x else None for x in states]}, closed after {closed_at} s"
+        if 0x13 not in states:
+            vs.append(("watchdog:idle-connection-with-unsent-output-never-marked-as-awaiting-DWA", desc, case))
+        if closed_at is None:
+            vs.append(("watchdog:silent-connection-with-unsent-output-never-closed", desc, case))
+        elif nw.peers[0].disconnect_reason != monitors.DISCONNECT_REASON_DWA_TIMEOUT:
+            vs.append((f"watchdog:closed-with-reason-{nw.peers[0].disconnect_reason}-instead-of-the-watchdog-reason", desc, case))
+        elif closed_at <= idle + dwa:
+            vs.append(("watchdog:closed-before-idle-plus-DWA-timeout", desc, case))
+        for f in nw.thread_failures():
+            vs.append(("watchdog:thread-died", f"{desc}: {f}", case))
+        return vs
+    finally:
+        sc.close()
+
+
 def run(tier):
     rep = Report("C11", tier, "model_checking")
     common.pool()
@@ -141,6 +186,11 @@ def run(tier):
     rep.sample({"schedule_exploration": "DWA arriving while the connection awaits it: reader thread vs I/O thread timer check at line granularity",
                 "preemption_bound": bound, "bound_completed_without_cap": r.get("bound_completed", bound), "capped": r.get("capped", False), "executions": r["executions"], "distinct_outcomes": len(r["outcomes"]), "branching_points": r["max_points"]})
     rep.cov["schedules"] = r["executions"]
+    stuck = [(i, d, w, b) for i, d, w in ((3, 2, 1), (2, 2, 2), (5, 1, 3)) for b in ("before-dwr", "after-dwr", "never")]
+    for vsl in common.pmap(stuck_output_case, stuck, chunksize=1):
+        for key, detail, case in vsl:
+            rep.add(Violation(key, detail, case))
+    rep.cov["stuck_output_histories"] = len(stuck)
     ms = models(tier)
     depth = 26 if tier == "thorough" else 16
     maxdev = 3 if tier == "thorough" else 2
@@ -157,6 +207,8 @@ def run(tier):
 
 
 def replay(case):
+    if "stuck" in case:
+        return [Violation(k, d) for k, d, c in stuck_output_case(tuple(case["stuck"]))]
     if "sched" in case:
         import functools
         from .. import scheddfs
